@@ -14,6 +14,7 @@ TECHNIQUE = {
  "C04": "connection typestate in RoundTrip by path-sensitive exploration (dispose-exactly-once counter, pooled-only-after-clean-read), control-dependence of pooling in the stream-close closure, select-case typestate of pooled pipeline work items, per-item typestate of the pipeline writer",
  "C05": "backward cleanliness (taint) analysis with sanitiser classes over SSA: reaching definitions of scratch fields, in-place and returning neutraliser summaries, call-site resolution of helper parameters, induction over checked storage fields; neutraliser shape precondition",
  "C06": "as C05 with two sanitiser classes (CR/LF and ';') for Cookie fields and the request cookie list",
+ "C07": "limit-flow: interprocedural propagation of limit parameters, use classification (compared / limited reader / forwarded), loop-carried staleness of the serve loop's limit variable, must-pass rules on the error response path",
  "C10": "backward condition slicing (interprocedural atoms of the close decision) + path-sensitive exploration of the serve loop",
  "C11": "field-coverage must-analysis of reset methods (forward dataflow, intersection at joins, callee summaries) + loop-carried staleness exploration of the serve loop",
  "C12": "counter pairing by path-sensitive exploration with counters in the abstract state (deferred calls applied at exit, ownership hand-offs as rule events), control-dependence of admission on the limit comparison, must-pass rules on rejection paths",
@@ -27,6 +28,8 @@ TECHNIQUE = {
  "C20": "reach-avoiding (must-pass) searches between hops of the redirect loop, constant sets of deleted header names, backward value slicing of the trust anchor (derives from the URL string, not from Request storage; loop-invariant)",
  "C21": "path-sensitive exploration: scheme comparison on every path to the transport, TLS-typed results of dialAddr under the TLS flag; value-flow of the map-selecting flag into HostClient.IsTLS",
  "C22": "result-use analysis of stackless function values (SSA referrers, reach-avoiding search on the queue-full edge), sibling cross-check of the body compressors, control-dependence of coder selection",
+ "C34": "reach-avoiding searches in the stream closers and writers, classification of every store to a bodyStream field (wrap/swap, dominated by the closer, read path)",
+ "C35": "path-sensitive typestate of *multipart.Form values from their producing call to every return; dominance of RemoveAll over nil stores; reset coverage; serve-loop must-reset",
  "C38": "typestate over select cases (timer / queue / completion) explored on every path of the deadline call; shape of the overflow return",
  "C28": "classification of element moves in key/value slice routines by index provenance (len-derived vs forward) + who-may-shorten rule over all stores to Args storage",
  "C29": "as C28 for header storage + sibling agreement of special-name tables + CopyTo field coverage (must-write and copied-from-same-field analyses)",
